@@ -61,6 +61,8 @@ pub struct Ctx {
     /// a printable sample of what this run did (only filled when trace_on or asked)
     pub want_sample: bool,
     pub sample: Vec<String>,
+    /// print events and samples to stderr as they happen (replay of runs that kill the process)
+    pub live: bool,
 }
 
 struct HashSink<'a>(&'a mut u64);
@@ -93,6 +95,7 @@ impl Ctx {
             ops: 0,
             want_sample: trace_on,
             sample: Vec::new(),
+            live: trace_on && std::env::var_os("VERIF_LIVE_TRACE").is_some(),
         }
     }
 
@@ -104,6 +107,9 @@ impl Ctx {
         let _ = HashSink(&mut self.ev_hash).write_fmt(args);
         let _ = HashSink(&mut self.ev_hash).write_str("\n");
         if self.trace_on {
+            if self.live {
+                eprintln!("  | {}", fmt::format(args));
+            }
             self.trace.push(fmt::format(args));
         }
     }
@@ -170,7 +176,11 @@ impl Ctx {
 
     pub fn sample(&mut self, line: impl FnOnce() -> String) {
         if self.want_sample && self.sample.len() < 200 {
-            self.sample.push(line());
+            let l = line();
+            if self.live {
+                eprintln!("  : {l}");
+            }
+            self.sample.push(l);
         }
     }
 }
